@@ -19,6 +19,25 @@ type IDTokenHandleHelper struct {
 	IDTokenStrategy OpenIDConnectTokenStrategy
 }
 
+// requesterWithSession is a view of a stored request with a private copy of its session.
+type requesterWithSession struct {
+	fosite.Requester
+	session fosite.Session
+}
+
+func (r *requesterWithSession) GetSession() fosite.Session {
+	return r.session
+}
+
+// withClonedSession returns a view of r whose session is a copy. The ID token claims are filled in on the session,
+// and the storage may hand out the very same request object to concurrent token requests for the same code.
+func withClonedSession(r fosite.Requester) fosite.Requester {
+	if r == nil || r.GetSession() == nil {
+		return r
+	}
+	return &requesterWithSession{Requester: r, session: r.GetSession().Clone()}
+}
+
 func (i *IDTokenHandleHelper) GetAccessTokenHash(ctx context.Context, requester fosite.AccessRequester, responder fosite.AccessResponder) string {
 	token := responder.GetAccessToken()
 	// The session should always be a openid.Session but best to safely cast
